@@ -25,6 +25,7 @@ static void plan_gen(SPlan *P, uint64_t seed, const RunOpts *o) {
     bool quick = strcmp(o->tier, "quick") == 0;
     sim_seed(seed); default_knobs();
     K.short_read_pm = sim_rndn(2) ? (int)sim_rndn(300) : 0;
+    K.stack_mode = sim_rndn(3) == 0 ? 1 + (int)sim_rndn(256) : 0;
     int np = corpus_nprogs();
     if (!quick && seed >= o->base && (seed - o->base) % 2 == 0) {
         /* thorough: exhaustive sweeps of single-bit flips and truncation lengths, 512 positions per run */
